@@ -32,7 +32,7 @@ def schemas(tier):
     if tier == "quick":
         want = ("h_reorder", "h_types64_be", "h_gaps", "h_counters_be", "h_extra", "h_refs")
         hs = [S for S in hs if S["package"] in want]
-    return catalogue.view_schemas() + hs + [traitsgen.c18_schema(), traitsgen.c18_fp_schema(), traitsgen.c18_text_schema(), traitsgen.c18_quote_schema()]
+    return catalogue.view_schemas() + hs + [traitsgen.c18_schema(), traitsgen.c18_fp_schema("float"), traitsgen.c18_fp_schema("double"), traitsgen.c18_text_schema(), traitsgen.c18_quote_schema()]
 
 
 # ------------------------------------------------------------ expected -----
@@ -224,8 +224,8 @@ def run(v, tier, seed):
     wd = vlib.fresh_dir(os.path.join(vlib.WORK, "c18", tier))
     configs = CONFIGS_THOROUGH if thorough else CONFIGS_QUICK
     vlib.build_sbeppc("plain")
-    Ss = schemas(tier)
-    results = vlib.parallel(Ss, lambda S: run_schema(S, configs, wd), nproc=6 if thorough else 8)
+    Ss = sorted(schemas(tier), key=lambda S: -len(S["types"]))   # long jobs first
+    results = vlib.parallel(Ss, lambda S: run_schema(S, configs, wd), nproc=8)
 
     programs = comparisons = entities = 0
     samples = []
